@@ -12,7 +12,8 @@ Driver for C02.
              once `k` entries were simultaneously inside the admission path) from the observed decisions
 
 Ops (`entry` and `par` take an optional last token `type=<t>[,…]`, ignored by model and spec):
-      `clock <ms>` · `load <n> <res,thr,iv,ref>*n` (thr = `f:<hex16>`, ref = `-` or a resource) ·
+      `clock <ms>` · `load <n> <res,thr,iv,ref[,q<maxQueueMs>]>*n` (thr = `f:<hex16>`, ref = `-` or a resource; a 5th field makes it a
+      throttling rule; a later `load` in the same case is a reload, rule ids keep counting) ·
       `entry <res> <batch>` · `par <res> <b0,b1,…> <i0,i1,…>` (schedule of thread ids: first occurrence =
       check phase, second = statistic phase) · `sum <res>` (pass sum of the node's default view, `-` = no node)
 -/
@@ -23,19 +24,21 @@ def knownKey : String := "assoc-standalone-own-traffic"
 
 structure DSt where
   s : St := {}
-  loaded : Bool := false
-  now : Nat := 0
+  t : Nat := 0                   -- the virtual clock in ns (advanced by `clock` and by sleeps)
+  nrules : Nat := 0              -- rules loaded so far in this case (ids of the next load start here)
+  loads : Nat := 0
   mono : Bool := true
   -- spec / oracle side
+  r : RSt := {}
   infos : List RuleInfo := []
   H : List Arrival := []
   seen : List Nat := []          -- resources that have a node
   width : Nat := 1               -- oracle: largest number of entries seen simultaneously inside the admission path
   maxB : Nat := 0                -- oracle: largest batch among them
 
-def parseRule (s : String) : Option Rule :=
-  match s.splitOn "," with
-  | [res, thr, iv, ref] =>
+def DSt.now (st : DSt) : Nat := st.t / nsPerMs
+
+def parseRule4 (res thr iv ref : String) : Option Rule :=
     match res.toNat?, (if thr.startsWith "f:" then parseHex? (thr.drop 2).toString else none), iv.toNat? with
     | some res, some bits, some iv =>
       if ref = "-" then some { res := res, thr := Thr.ofBits bits, iv := iv }
@@ -43,6 +46,17 @@ def parseRule (s : String) : Option Rule :=
         | some r => some { res := res, thr := Thr.ofBits bits, iv := iv, ref := some r }
         | none => none
     | _, _, _ => none
+
+/-- `res,thr,iv,ref` (reject) or `res,thr,iv,ref,q<MaxQueueingTimeMs>` (throttling) -/
+def parseRule (s : String) : Option Rule :=
+  match s.splitOn "," with
+  | [res, thr, iv, ref] => parseRule4 res thr iv ref
+  | [res, thr, iv, ref, q] =>
+    if q.startsWith "q" then
+      match parseRule4 res thr iv ref, (q.drop 1).toString.toNat? with
+      | some r, some mq => some { r with kind := .throttle mq }
+      | _, _ => none
+    else none
   | _ => none
 
 def parseRules : List String → Option (List Rule)
@@ -71,7 +85,10 @@ def stripType (ts : List String) : Option (List String) :=
 
 def showD : Option Nat → String
   | none => "pass"
-  | some i => s!"block flow {i}"
+  | some i => if i = noRule then "block flow -" else s!"block flow {i}"
+
+/-- results carry the time slept inside the flow slot when there was any: `pass +<ns>` -/
+def withSleep (r : String) (t0 t1 : Nat) : String := if t1 > t0 then s!"{r} +{t1 - t0}" else r
 
 def addSeen (l : List Nat) (r : Nat) : List Nat := if l.contains r then l else l ++ [r]
 
@@ -97,36 +114,40 @@ def schedWidth (sched : List Nat) : Nat :=
 def decisionsOf (ths : List (Option (Option Nat × Bool))) : String :=
   showList (ths.map fun st => match st with | some (d, _) => showD d | none => "-")
 
-/-- window-cap check of the oracle: every own-traffic rule of `res`, at `now`, with the allowed slack -/
+/-- window-cap check of the oracle: every own-traffic reject rule of `res`, at `now`, with the allowed slack -/
 def capViolations (st : DSt) (res : Nat) : List String :=
   st.infos.filterMap fun c =>
-    if c.rule.res = res ∧ c.rule.src = res then
+    if c.rule.res = res ∧ c.rule.src = res ∧ c.rule.kind = .reject then
       let tok := windowTokens st.H res c.L c.Iv st.now
       if c.rule.thr.exceeds (tok - (st.width - 1) * st.maxB) then some s!"cap rule {c.idx} tokens {tok}" else none
     else none
 
+def stepClock (st : DSt) (t : String) : DSt × Option String :=
+  match t.toNat? with
+  -- the clock never goes back behind what the sleeps of the flow slot already made of it
+  | some t => ({ st with t := max st.t (t * nsPerMs) }, none)
+  | none => (st, some "bad-op")
+
 def stepModel (st : DSt) (ts : List String) : DSt × Option String :=
   match ts with
-  | ["clock", t] => match t.toNat? with
-      | some t => ({ st with now := t }, none)
-      | none => (st, some "bad-op")
+  | ["clock", t] => stepClock st t
   | "load" :: n :: rs => match n.toNat?, parseRules rs with
       | some n, some rules =>
-        if st.loaded || n ≠ rules.length then (st, some "bad-op") else
-        let s := load rules st.now
-        ({ st with s := s, loaded := true }, some s!"ok {s.ctrls.length}")
+        if n ≠ rules.length then (st, some "bad-op") else
+        let s := reloadG st.s rules st.now st.nrules
+        ({ st with s := s, nrules := st.nrules + rules.length, loads := st.loads + 1 }, some s!"ok {s.ctrls.length}")
       | _, _ => (st, some "bad-op")
   | ["entry", res, b] => match res.toNat?, b.toNat? with
       | some res, some b =>
-        let (s, d) := entry st.s res st.now b
-        ({ st with s := s }, some (showD d))
+        let x := entryG st.s res st.t b
+        ({ st with s := x.1, t := x.2.1 }, some (withSleep (showD x.2.2) st.t x.2.1))
       | _, _ => (st, some "bad-op")
   | ["par", res, bs, sched] => match res.toNat?, parseNats bs, parseNats sched with
       | some res, some bs, some sched =>
         if !schedOk bs.length sched then (st, some "bad-op") else
         let ths : List Thread := bs.map fun b => { res := res, b := b }
-        let (s, ths) := runSched st.s st.now ths sched
-        ({ st with s := s }, some (decisionsOf (ths.map (·.st))))
+        let x := runSchedG st.s st.t ths sched
+        ({ st with s := x.1, t := x.2.1 }, some (withSleep (decisionsOf (x.2.2.map (·.st))) st.t x.2.1))
       | _, _, _ => (st, some "bad-op")
   | ["sum", res] => match res.toNat? with
       | some res => match lookup st.s.nodes res with
@@ -137,42 +158,42 @@ def stepModel (st : DSt) (ts : List String) : DSt × Option String :=
 
 def stepSpec (st : DSt) (ts : List String) : DSt × Option String :=
   match ts with
-  | ["clock", t] => match t.toNat? with
-      | some t => ({ st with now := t, mono := st.mono && decide (st.now ≤ t) }, none)
-      | none => (st, some "bad-op")
+  | ["clock", t] => stepClock st t
   | "load" :: n :: rs => match n.toNat?, parseRules rs with
       | some n, some rules =>
-        if st.loaded || n ≠ rules.length then (st, some "bad-op") else
-        let infos := compile rules
-        let seen := (rules.filter (·.valid)).foldl (fun l r => addSeen l r.src) st.seen
-        ({ st with infos := infos, loaded := true, seen := seen }, some s!"ok {infos.length}")
+        if n ≠ rules.length then (st, some "bad-op") else
+        let r := refReloadG st.r rules st.nrules
+        -- nodes are created by `generateStatFor`, i.e. only for reject rules that get a brand-new statistic
+        -- (a superset is harmless here: the node of a resource that already has one is kept)
+        let seen := (rules.filter fun x => x.valid && x.kind == .reject).foldl (fun l x => addSeen l x.src) st.seen
+        ({ st with r := r, nrules := st.nrules + rules.length, loads := st.loads + 1, seen := seen,
+                   infos := r.ctrls.map (·.info) }, some s!"ok {r.ctrls.length}")
       | _, _ => (st, some "bad-op")
   | ["entry", res, b] => match res.toNat?, b.toNat? with
       | some res, some b =>
-        let a : Arrival := { t := st.now, res := res, b := b }
-        let asis := refCheck RuleInfo.feed st.infos st.H res st.now b
-        let claim := refCheck srcDemanded st.infos st.H res st.now b
-        -- at time 0 ("no time") nothing is recorded, and no claim is made
-        let st' := { st with H := if asis.isNone && st.now != 0 then st.H ++ [a] else st.H, seen := addSeen st.seen res }
+        let asis := refEntryG RuleInfo.feed st.r res st.t b
+        let claim := refEntryG srcDemanded st.r res st.t b
+        let st' := { st with r := asis.1, t := asis.2.1, seen := addSeen st.seen res }
         if !st.mono || st.now = 0 then (st', some "?")
-        else if inRegion st.infos res then (st', some s!"?known:{knownKey}:{showD claim}")
-        else (st', some (showD claim))
+        else if inRegion st.infos res then (st', some s!"?known:{knownKey}:{withSleep (showD claim.2.2) st.t claim.2.1}")
+        else (st', some (withSleep (showD claim.2.2) st.t claim.2.1))
       | _, _ => (st, some "bad-op")
   | ["par", res, bs, sched] => match res.toNat?, parseNats bs, parseNats sched with
       | some res, some bs, some sched =>
         if !schedOk bs.length sched then (st, some "bad-op") else
         let ths : List Thread := bs.map fun b => { res := res, b := b }
-        let (H', asis) := refRunSched RuleInfo.feed st.infos st.H st.now ths sched
-        let (_, claim) := refRunSched srcDemanded st.infos st.H st.now ths sched
-        let st' := { st with H := if st.now != 0 then H' else st.H, seen := addSeen st.seen res }
+        let asis := refRunSchedG RuleInfo.feed st.r st.t ths sched
+        let claim := refRunSchedG srcDemanded st.r st.t ths sched
+        let st' := { st with r := asis.1, t := asis.2.1, seen := addSeen st.seen res }
         if !st.mono || st.now = 0 then (st', some "?")
-        else if inRegion st.infos res then (st', some s!"?known:{knownKey}:{decisionsOf (claim.map (·.st))}")
-        else (st', some (decisionsOf (asis.map (·.st))))
+        else if inRegion st.infos res then
+          (st', some s!"?known:{knownKey}:{withSleep (decisionsOf (claim.2.2.map (·.st))) st.t claim.2.1}")
+        else (st', some (withSleep (decisionsOf (asis.2.2.map (·.st))) st.t asis.2.1))
       | _, _, _ => (st, some "bad-op")
   | ["sum", res] => match res.toNat? with
       | some res =>
         if !st.mono || st.now = 0 then (st, some "?")
-        else if st.seen.contains res then (st, some (toString (windowTokens st.H res gL dIv st.now)))
+        else if st.seen.contains res then (st, some (toString (windowTokens st.r.H res gL dIv st.now)))
         else (st, some "-")
       | none => (st, some "bad-op")
   | _ => (st, some "bad-op")
@@ -180,35 +201,46 @@ def stepSpec (st : DSt) (ts : List String) : DSt × Option String :=
 def parseD (r : String) : Option (Option Nat) :=
   match toks r with
   | ["pass"] => some none
+  | ["block", "flow", "-"] => some (some noRule)
   | ["block", "flow", i] => i.toNat?.map some
   | _ => none
 
-/-- oracle: judge the implementation's own trace -/
+/-- split `<result> +<ns>` -/
+def splitSleep (r : String) : String × Nat :=
+  match r.splitOn " +" with
+  | [a, w] => (a, w.toNat?.getD 0)
+  | _ => (r, 0)
+
+/-- oracle: judge the implementation's own trace (window caps; no claim after a reload, which may legitimately
+    lower a threshold below what the window already holds) -/
 def stepOracle (st : DSt) (ts : List String) (line : String) : DSt × Option String :=
-  let res? := resPart line
+  let res? := (resPart line).map splitSleep
   match ts with
-  | ["clock", t] => match t.toNat? with
-      | some t => ({ st with now := t, mono := st.mono && decide (st.now ≤ t) }, none)
-      | none => (st, some "bad-op")
+  | ["clock", t] => stepClock st t
   | "load" :: _ :: rs => match parseRules rs with
-      | some rules => ({ st with infos := compile rules, loaded := true }, some "ok")
+      | some rules => ({ st with infos := compile rules, loads := st.loads + 1 }, some "ok")
       | none => (st, some "bad-op")
-  | ["entry", res, b] => match res.toNat?, b.toNat?, res?.bind parseD with
-      | some res, some b, some d =>
+  | ["entry", res, b] => match res.toNat?, b.toNat?, res? with
+      | some res, some b, some (r, w) => match parseD r with
+        | none => (st, some "bad-op")
+        | some d =>
+        let st := { st with t := st.t + w }
         if d.isSome then (st, some "ok") else
         let st' := { st with H := st.H ++ [{ t := st.now, res := res, b := b }] }
-        if !st.mono then (st', some "?") else
+        if !st.mono || st.loads ≠ 1 then (st', some "?") else
         match capViolations st' res with
         | [] => (st', some "ok")
         | v :: _ => (st', some ("bad " ++ v))
       | _, _, _ => (st, some "bad-op")
   | ["par", res, bs, sched] => match res.toNat?, parseNats bs, parseNats sched, res? with
-      | some res, some bs, some sched, some r =>
+      | some res, some bs, some sched, some (r, w) =>
         let ds := ((r.drop 1).dropEnd 1).toString.splitOn ","
         if ds.length ≠ bs.length then (st, some "bad-op") else
+        let st := { st with t := st.t + w }
         let adm := (bs.zip ds).filterMap fun (b, d) => if d = "pass" then some ({ t := st.now, res := res, b := b } : Arrival) else none
         let st' := { st with H := st.H ++ adm, width := max st.width (schedWidth sched), maxB := max st.maxB (bs.foldl max 0) }
-        if !st.mono then (st', some "?") else
+        -- with sleeping rules the admitted callers of one burst may record at different instants: no claim
+        if !st.mono || st.loads ≠ 1 || w ≠ 0 then (st', some "?") else
         match capViolations st' res with
         | [] => (st', some "ok")
         | v :: _ => (st', some ("bad " ++ v))
